@@ -36,6 +36,24 @@ pub const QSIG: &str = "stop-ignored-in-quiescence|Searcher::quiescence_search";
 pub const STALL_S: f64 = 6.0;
 pub const OUTER_S: f64 = 150.0;
 
+fn stall_s(ctx: &Ctx) -> f64 {
+    if ctx.mode == "miri" {
+        900.0
+    } else if ctx.mode == "tsan" {
+        30.0
+    } else {
+        STALL_S
+    }
+}
+
+fn outer_s(ctx: &Ctx) -> f64 {
+    if ctx.mode == "miri" {
+        1500.0
+    } else {
+        OUTER_S
+    }
+}
+
 #[derive(Clone, Debug)]
 pub struct Case {
     pub fen: String,
@@ -256,7 +274,7 @@ pub fn run_case(case: &Case, ev: &Evaluator, ctx: &Ctx, rep: &mut Report) -> Ver
             Some(("stop-ignored", format!("a pool thread entered {} nodes after Cancel fired (bound {}) and the search has not returned", after, NODE_BOUND)))
         } else if progress_after_cancel > ITER_BOUND {
             Some(("stop-ignored", format!("{} further deepening iterations completed after Cancel fired (bound {}); nodes per iteration never reach the polling interval", progress_after_cancel, ITER_BOUND)))
-        } else if last_change.elapsed().as_secs_f64() > STALL_S && (case.depth.is_some() || stops_sent.load(SeqCst) > 0) {
+        } else if last_change.elapsed().as_secs_f64() > stall_s(ctx) && (case.depth.is_some() || stops_sent.load(SeqCst) > 0) {
             if !panics.is_empty() {
                 Some(("search-panic", format!("a search thread panicked ({}) and the control thread never returns", panics.join(" ; "))))
             } else if stops_sent.load(SeqCst) > 0 && !srch::CANCEL_SEEN.load(Relaxed) {
@@ -271,11 +289,10 @@ pub fn run_case(case: &Case, ev: &Evaluator, ctx: &Ctx, rep: &mut Report) -> Ver
             rep.violation(kind, &case.signature(kind), &msg, replay);
             return Verdict::Fatal;
         }
-        if t0.elapsed().as_secs_f64() > OUTER_S {
-            rep.inconclusive(&format!("outer watchdog: search of {} still making progress after {}s", case.fen, OUTER_S));
+        if t0.elapsed().as_secs_f64() > outer_s(ctx) {
+            rep.inconclusive(&format!("outer watchdog: search of {} still making progress after {}s", case.fen, outer_s(ctx)));
             return Verdict::Fatal;
         }
-        let _ = ctx;
     }
     let joined = handle.join();
     // drain what is left
@@ -531,6 +548,22 @@ pub fn run(ctx: &Ctx, rep: &mut Report) {
         }
         return;
     }
+    if ctx.mode == "miri" {
+        // the interpreter is ~1000x slower: two tiny king/pawn searches through the public entry
+        // (control thread, channels, token, rayon workers at iteration 3+), one with Stop
+        for (fen, depth, stops) in [("8/8/8/4k3/8/4K3/4P3/8 w - - 0 1", Some(2usize), vec![]), ("8/8/8/8/3k4/8/3PK3/8 b - - 0 1", None, vec![6u64])] {
+            let case = Case { fen: fen.into(), depth, seed: ctx.seed, tables: 1, buckets: 2, hasher_seed: 7, stops, stop_after: true, drop_rx_after: None, followup_depth: 1, hold_rx: false, fresh_memory: false };
+            match run_case(&case, &ev, ctx, rep) {
+                Verdict::Ok(_) => rep.count("miri_searches", 1),
+                Verdict::Fatal => {
+                    rep.write(ctx);
+                    std::process::exit(if rep.violation_count > 0 { 1 } else { 2 });
+                }
+                _ => {}
+            }
+        }
+        return;
+    }
     if ctx.mode == "quiescence" {
         // the listed input of known finding F11: Stop during an exploding capture search
         let case = Case { fen: EXPLOSIVE_FEN.into(), depth: Some(1), seed: 1, tables: 8, buckets: 1024, hasher_seed: 1, stops: vec![1], stop_after: false, drop_rx_after: None, followup_depth: 1, hold_rx: false, fresh_memory: false };
@@ -634,13 +667,13 @@ fn sync_scenario(sc: &crate::scenario::Scenario, ev: &Evaluator, ctx: &Ctx, rep:
             rep.write(ctx);
             std::process::exit(1);
         }
-        if last_change.elapsed().as_secs_f64() > STALL_S {
+        if last_change.elapsed().as_secs_f64() > stall_s(ctx) {
             let p = util::panics_since(mark);
             rep.violation("hung", &format!("hung|{}", sig), &format!("no node entered for {}s and the search has not returned; panics: {:?}", STALL_S, p), replay);
             rep.write(ctx);
             std::process::exit(1);
         }
-        if t0.elapsed().as_secs_f64() > OUTER_S {
+        if t0.elapsed().as_secs_f64() > outer_s(ctx) {
             rep.inconclusive("outer watchdog on a synchronous search");
             rep.write(ctx);
             std::process::exit(2);
